@@ -43,39 +43,40 @@ type writeRec struct {
 
 // Frame is one activation (top-level function or inlined call).
 type Frame struct {
-	g            *Gen
-	fn           *ssa.Function
-	vals         map[ssa.Value]Term
-	prefix       string
-	contract     *FuncContract
-	parent       *Frame
-	pendingFree  map[string]Binding // captured variables of the function literal whose contract is being applied
-	anchorArgs   []Term             // arguments of the call whose "before call" anchor is being fired ($a0, $a1, ...)
-	firedAnchors map[int]bool       // indices of contract.Asserts whose anchor was reached
-	pkg          string
-	entrySt      *State
-	loops        map[*ssa.BasicBlock]*loopInfo
-	loopList     []*loopInfo
-	order        []*ssa.BasicBlock
-	outSt        map[*ssa.BasicBlock]*State
-	outReach     map[*ssa.BasicBlock]string
-	edgeCond     map[*ssa.BasicBlock][]string
-	rets         []retPoint
-	params       map[string]Binding
-	deferSites   []*ssa.Defer
-	deferArgs    map[*ssa.Defer][]Term
-	deferFn      map[*ssa.Defer]Term
-	callOrd      map[string]int
-	srcOrd       map[ssa.Instruction]string // call instruction -> "Name@k" (source order), built lazily
-	curBlock     *ssa.BasicBlock
-	curLoopStack []*loopInfo
-	ghosts       map[string]Binding // function-level ghost variables (current values)
-	tuples       map[ssa.Value][]Term
-	closureOf    map[*ssa.MakeClosure]*closureVal
-	splits       map[*ssa.BasicBlock][]string
-	ranges       map[*ssa.Range]*rangeState
-	arrViews     map[*ssa.Slice]arrView
-	deferKey     map[*ssa.Defer]string
+	g              *Gen
+	fn             *ssa.Function
+	vals           map[ssa.Value]Term
+	prefix         string
+	contract       *FuncContract
+	parent         *Frame
+	pendingFree    map[string]Binding // captured variables of the function literal whose contract is being applied
+	anchorArgs     []Term             // arguments of the call whose "before call" anchor is being fired ($a0, $a1, ...)
+	firedAnchors   map[int]bool       // indices of contract.Asserts whose anchor was reached
+	pkg            string
+	entrySt        *State
+	loops          map[*ssa.BasicBlock]*loopInfo
+	loopList       []*loopInfo
+	order          []*ssa.BasicBlock
+	outSt          map[*ssa.BasicBlock]*State
+	outReach       map[*ssa.BasicBlock]string
+	edgeCond       map[*ssa.BasicBlock][]string
+	rets           []retPoint
+	params         map[string]Binding
+	deferSites     []*ssa.Defer
+	deferArgs      map[*ssa.Defer][]Term
+	deferFn        map[*ssa.Defer]Term
+	callOrd        map[string]int
+	anchorResTypes []types.Type               // Go types of $rK for the anchor being fired
+	srcOrd         map[ssa.Instruction]string // call instruction -> "Name@k" (source order), built lazily
+	curBlock       *ssa.BasicBlock
+	curLoopStack   []*loopInfo
+	ghosts         map[string]Binding // function-level ghost variables (current values)
+	tuples         map[ssa.Value][]Term
+	closureOf      map[*ssa.MakeClosure]*closureVal
+	splits         map[*ssa.BasicBlock][]string
+	ranges         map[*ssa.Range]*rangeState
+	arrViews       map[*ssa.Slice]arrView
+	deferKey       map[*ssa.Defer]string
 }
 
 func (g *Gen) newFrame(fn *ssa.Function, parent *Frame, prefix string) *Frame {
